@@ -233,7 +233,11 @@ Next ==
   /\ LET e == Traces[tid].ev[l]
          o == e.obs
          sf == StructFails(o)
-         stutter == IF e.res # "ok" /\ o.dig # PrevDig(tid, l) THEN {"stutter"} ELSE {}
+         stutter == (IF e.res # "ok" /\ o.dig # PrevDig(tid, l) THEN {"stutter"} ELSE {})
+                    \* C10: a read-only call leaves the whole observation unchanged and
+                    \* answers the same when repeated (and as it did earlier in this state)
+                    \cup (IF e.op.k = "query" /\ o.dig # PrevDig(tid, l) THEN {"query-changed"} ELSE {})
+                    \cup (IF e.op.k = "query" /\ e.qsame = 0 THEN {"query-unrepeatable"} ELSE {})
      IN
      IF ~ok THEN
         /\ (IF sf \cup stutter = {} THEN TRUE ELSE PrintT(<<"REJECT", Traces[tid].id, l, sf \cup stutter, "late">>))
